@@ -244,6 +244,7 @@ func c08(r *core.Run) {
 	c08Sort(r)
 	c08Subset(r, adms)
 	c08Range(r)
+	c08Configured(r)
 }
 
 func c08Veto(r *core.Run) {
@@ -1236,4 +1237,162 @@ func resolveBoolField(cond ssa.Value) ssa.Value {
 		return vals[0]
 	}
 	return cond
+}
+
+// c08Configured: "no lower than the configured threshold" presupposes that the threshold the scanner compares
+// with IS the configured one. A configured value may be replaced by a constant (a default, a clamp) only where a
+// test has established that it lies outside (0,1]: == 0 (unset), <= 0, < 0, > 1. Replacing 1.0 — or any value
+// inside the range — makes the scanner report alerts below the threshold the user asked for.
+func c08Configured(r *core.Run) {
+	p := r.P
+	roles := scannerFloatRoles(p)
+	// fields (Type.Field) that hold the configured threshold: the scanner's own field and every options field
+	// whose load is stored into it
+	thrFields := map[string]bool{}
+	for tn, sf := range roles {
+		if sf.thr != "" {
+			thrFields[tn+"."+sf.thr] = true
+		}
+	}
+	fieldKey := func(fa *ssa.FieldAddr) string {
+		return core.Deref(fa.X.Type()).String() + "." + core.FieldName(fa.X.Type(), fa.Field)
+	}
+	for _, fn := range scannerFuncs(p) {
+		core.InstrsOf(fn, func(in ssa.Instruction) {
+			st, ok := in.(*ssa.Store)
+			if !ok {
+				return
+			}
+			fa, ok := st.Addr.(*ssa.FieldAddr)
+			if !ok || !thrFields[fieldKey(fa)] {
+				return
+			}
+			for _, o := range core.Origins(st.Val) {
+				if u, isLoad := o.(*ssa.UnOp); isLoad && u.Op == token.MUL {
+					if fa2, isFA := u.X.(*ssa.FieldAddr); isFA && isFloat64(u.Type()) {
+						thrFields[fieldKey(fa2)] = true
+					}
+				}
+			}
+		})
+	}
+	isConfigured := func(fn *ssa.Function, v ssa.Value) bool {
+		v = core.Unwrap(v)
+		if u, isLoad := v.(*ssa.UnOp); isLoad && u.Op == token.MUL {
+			if fa, isFA := u.X.(*ssa.FieldAddr); isFA && thrFields[fieldKey(fa)] {
+				return true
+			}
+		}
+		if prm, isP := v.(*ssa.Parameter); isP && isFloat64(prm.Type()) && fn.Name() == "SetThreshold" {
+			return true
+		}
+		return false
+	}
+	n, nTests := 0, 0
+	funcs := append(scannerFuncs(p), p.FuncsIn("internal/cli")...)
+	for _, fn := range funcs {
+		fn := fn
+		outside := func(cond ssa.Value) (bool, bool) {
+			op, x, y, neg, ok := core.Compare(cond)
+			if !ok || neg || !isConfigured(fn, x) {
+				return false, false
+			}
+			k, isC := core.ConstFloat(y)
+			if !isC {
+				return false, false
+			}
+			switch {
+			case op == token.EQL && k == 0:
+				return true, true
+			case op == token.NEQ && k == 0:
+				return true, false
+			case (op == token.LEQ || op == token.LSS) && k <= 0:
+				return true, true
+			case op == token.GTR && k >= 1:
+				return true, true
+			case op == token.GEQ && k > 1:
+				return true, true
+			}
+			return false, false
+		}
+		tests := 0
+		for _, b := range fn.Blocks {
+			if len(b.Instrs) == 0 {
+				continue
+			}
+			if ifi, ok := b.Instrs[len(b.Instrs)-1].(*ssa.If); ok {
+				if _, x, y, _, ok := core.Compare(ifi.Cond); ok && (isConfigured(fn, x) || isConfigured(fn, y)) {
+					tests++
+				}
+			}
+		}
+		if tests == 0 {
+			continue // an unconditional default (constructor literal): nothing configured is replaced
+		}
+		nTests += tests
+		core.InstrsOf(fn, func(in ssa.Instruction) {
+			st, ok := in.(*ssa.Store)
+			if !ok {
+				return
+			}
+			fa, ok := st.Addr.(*ssa.FieldAddr)
+			if !ok || !thrFields[fieldKey(fa)] {
+				return
+			}
+			k, isC := core.ConstFloat(st.Val)
+			if !isC {
+				// a merge of the configured value with a constant (t = default on one arm): the arm that brings the
+				// constant is entered only through a test that found the value outside the range
+				seenPhi := map[*ssa.Phi]bool{}
+				var walk func(v ssa.Value)
+				walk = func(v ssa.Value) {
+					ph, isPhi := v.(*ssa.Phi)
+					if !isPhi || seenPhi[ph] {
+						return
+					}
+					seenPhi[ph] = true
+					hasConf := false
+					for _, e := range ph.Edges {
+						for _, o := range core.Origins(e) {
+							if isConfigured(fn, o) {
+								hasConf = true
+							}
+						}
+					}
+					for i, e := range ph.Edges {
+						walk(e)
+						kc, isK := core.ConstFloat(e)
+						if !isK || !hasConf {
+							continue
+						}
+						n++
+						cut, _ := core.GuardEdges(fn, outside)
+						for j, pb := range ph.Block().Preds {
+							if j == i {
+								continue
+							}
+							for si, sb := range pb.Succs {
+								if sb == ph.Block() {
+									cut[core.Edge{From: pb, Idx: si}] = true
+								}
+							}
+						}
+						path := core.PathAvoiding(fn.Blocks[0], ph.Block(), cut)
+						r.Check(path == nil, "C08.CONFIG", core.FuncName(fn)+"#replaces-configured-threshold", st.Pos(),
+							fmt.Sprintf("the configured threshold is replaced by %g only after a test found it outside (0,1]", kc),
+							fmt.Sprintf("the configured threshold is replaced by the constant %g on a path (%s) where it may lie inside (0,1] — e.g. exactly 1.0: alerts below the threshold the user configured are reported", kc, core.FmtPath(path)))
+					}
+				}
+				walk(st.Val)
+				return
+			}
+			n++
+			ok1, n1, path := core.MustPass(fn, st.Block(), outside)
+			r.Check(ok1 && n1 > 0, "C08.CONFIG", core.FuncName(fn)+"#replaces-configured-threshold", st.Pos(),
+				fmt.Sprintf("the configured threshold is replaced by %g only after a test found it outside (0,1]", k),
+				fmt.Sprintf("the configured threshold is replaced by the constant %g on a path (%s) where it may lie inside (0,1] — e.g. exactly 1.0: alerts below the threshold the user configured are reported", k, core.FmtPath(path)))
+		})
+	}
+	r.Floor("C08.CONFIG", "fields holding the configured threshold", len(thrFields), 3)
+	r.Floor("C08.CONFIG", "conditional replacements of the configured threshold", n, 1)
 }
